@@ -627,12 +627,54 @@ pub fn gather_dependencies(
     }
 
     let parsed = parse_sexp(Srcloc::start(real_input_path), file_content.bytes())?;
-    let program = frontend(opts, &parsed)?;
+    // Keep every helper: a (mod ...) nested in an unused helper is still read.
+    let program = frontend(opts.set_frontend_check_live(false), &parsed)?;
 
-    let filtered_results: Vec<IncludeDesc> = program
-        .include_forms
+    let mut all_includes = Vec::new();
+    collect_include_forms(&program, &mut all_includes);
+    let filtered_results: Vec<IncludeDesc> = all_includes
         .into_iter()
         .filter(|f| !f.name.starts_with(b"*"))
         .collect();
     Ok(filtered_results)
+}
+
+/// A (mod ...) used as an expression (and a defmacro body) is parsed by its own
+/// frontend() call, which keeps its own list of include files.  Collect the
+/// include files of a program together with those of the programs nested in it.
+fn collect_include_forms(form: &CompileForm, out: &mut Vec<IncludeDesc>) {
+    out.extend(form.include_forms.iter().cloned());
+    for h in form.helpers.iter() {
+        match h {
+            HelperForm::Defconstant(d) => collect_include_forms_bodyform(d.body.borrow(), out),
+            HelperForm::Defun(_, d) => collect_include_forms_bodyform(d.body.borrow(), out),
+            HelperForm::Defmacro(m) => collect_include_forms(m.program.borrow(), out),
+        }
+    }
+    collect_include_forms_bodyform(form.exp.borrow(), out);
+}
+
+fn collect_include_forms_bodyform(body: &BodyForm, out: &mut Vec<IncludeDesc>) {
+    match body {
+        BodyForm::Let(_, letdata) => {
+            for b in letdata.bindings.iter() {
+                collect_include_forms_bodyform(b.body.borrow(), out);
+            }
+            collect_include_forms_bodyform(letdata.body.borrow(), out);
+        }
+        BodyForm::Call(_, args, tail) => {
+            for a in args.iter() {
+                collect_include_forms_bodyform(a.borrow(), out);
+            }
+            if let Some(t) = tail {
+                collect_include_forms_bodyform(t.borrow(), out);
+            }
+        }
+        BodyForm::Mod(_, program) => collect_include_forms(program, out),
+        BodyForm::Lambda(ldata) => {
+            collect_include_forms_bodyform(ldata.captures.borrow(), out);
+            collect_include_forms_bodyform(ldata.body.borrow(), out);
+        }
+        BodyForm::Quoted(_) | BodyForm::Value(_) => {}
+    }
 }
